@@ -122,7 +122,9 @@ SeqCase ==
   LET r == RefParse(stk)
   IN IF r.ok THEN [kind |-> "seq", ok |-> TRUE, tree |-> r.node, n |-> Len(stk),
                    texts |-> <<TextMin(stk), TextWild(stk)>>]
-     ELSE [kind |-> "seq", ok |-> FALSE, at |-> r.at, n |-> Len(stk), texts |-> <<TextMin(stk), TextWild(stk)>>]
+     ELSE [kind |-> "seq", ok |-> FALSE, at |-> r.at, n |-> Len(stk), texts |-> <<TextMin(stk), TextWild(stk)>>,
+           \* C13: where the sequence stops being a sentence (the end of input has no token of its own)
+           pos |-> IF r.at <= Len(stk) THEN <<PosMin(stk, r.at), PosWild(stk, r.at)>> ELSE <<>>]
 EmitSeqs == (Len(stk) > 0 /\ SEmitMode = "seqs") => PrintT(ToJson(SeqCase))
 
 =============================================================================
